@@ -25,7 +25,17 @@ try:
     a = sh(f"git -C {wt} apply {patch}")
     res["patch_applies"] = a.returncode == 0
     if a.returncode != 0:
-        print("patch does not apply:", a.stderr); sys.exit(2)
+        # a later fix: commit moved the context: try a 3-way merge and keep the rebased patch if it is conflict-free
+        sh(f"git -C {wt} checkout -q -- . && git -C {wt} clean -fdq")
+        a3 = sh(f"git -C {wt} apply --3way {patch}")
+        if a3.returncode != 0 or "with conflicts" in (a3.stderr + a3.stdout):
+            print("patch does not apply:", a.stderr); sys.exit(2)
+        rebased = Path(f"/tmp/rebased_{pid}_{k}_{os.getpid()}.diff")
+        rebased.write_text(sh(f"git -C {wt} diff HEAD -- src").stdout)
+        sh(f"git -C {wt} reset -q")
+        res["patch_applies"] = True
+        res["rebased_onto"] = sh("git -C /repo rev-parse --short HEAD").stdout.strip()
+        patch = rebased
     r1 = sh(f"cd {wt} && {env} timeout 600 /venv/bin/python {demo}")
     res["demo_with_patch_exit"] = r1.returncode
     res["demo_with_patch_output"] = (r1.stdout + r1.stderr)[-600:]
@@ -65,6 +75,7 @@ if ok:
     out.mkdir(parents=True, exist_ok=True)
     if patch.parent != out:
         shutil.copy(patch, out / "patch.diff")
+    if demo.parent != out:
         shutil.copy(demo, out / "demo.py")
     prev = json.loads((out / "meta.json").read_text()) if (out / "meta.json").exists() else None
     m = dict(prev) if prev is not None else {}
@@ -72,6 +83,8 @@ if ok:
         m.update(json.loads(meta.read_text()))
     if prev is not None and prev.get("checks") != res["checks"]:
         m["earlier_runs"] = prev.get("earlier_runs", []) + [prev.get("checks")]
+    if res.get("rebased_onto"):
+        m["rebased_onto"] = res["rebased_onto"]
     m.update({"breaks_property": pid, "what_i_ran": [
         "git worktree of /repo HEAD under /tmp; demo without patch (exit 0 expected)", "git apply patch.diff",
         "demo with patch (exit 1 expected)", "pinned test suite with PYTHONPATH=<worktree>/src",
